@@ -12,7 +12,7 @@ from bbv.core import pool, observe
 from . import common
 
 LEVEL = "exploration"
-H = "name a\nversion 1.0\n\nint n = 2\nfloat array A =\n    1.5, 2.5, 3.5, 4.5, 5.5, 6.5, 7.5\n"
+H = "name a\nversion 1.0\n\nint n = 2\nstr w9 = \"x\"\nbool t9 = True\nfloat y9 = 0.25\nfloat array A =\n    1.5, 2.5, 3.5, 4.5, 5.5, 6.5, 7.5\n"
 V = "§"   # placeholder for the loop variable in body templates
 
 
@@ -38,7 +38,11 @@ def headers(ctx):
              ("int", ["-2", "0", "3"], [-2, 0, 3]), ("int", ["0", "0"], [0, 0]), ("int", ["2", "1", "2"], [2, 1, 2]),
              ("float", ["0.5", "1"], [0.5, 1.0]), ("float", ["n/4"], [0.5]), ("float", ["-1.5", "2", "A[1]"], [-1.5, 2.0, 2.5]),
              ("bool", ["True", "False"], [True, False]), ("bool", ["False"], [False]),
-             ("str", ['"a"', '"b"'], ["a", "b"]), ("str", ['"x y"'], ["x y"])]
+             ("str", ['"a"', '"b"'], ["a", "b"]), ("str", ['"x y"'], ["x y"]),
+             # literals and references to declared variables / expressions mixed, in every relative order (the values run in the order listed)
+             ("str", ['"y"', "w9", '"z"'], ["y", "x", "z"]), ("str", ["w9", '"y"'], ["x", "y"]), ("str", ['"y"', '"z"', "w9"], ["y", "z", "x"]),
+             ("bool", ["False", "t9", "False"], [False, True, False]), ("bool", ["t9", "False"], [True, False]), ("bool", ["False", "False", "t9"], [False, False, True]),
+             ("float", ["0.5", "y9", "2", "2*y9", "A[0]"], [0.5, 0.25, 2.0, 0.5, 1.5]), ("int", ["5", "n", "1", "n*n", "0"], [5, 2, 1, 4, 0])]
     for br in ("[%s]", "(%s)", "%s"):
         for t, items, vals in lists:
             hs.append((t, br % ", ".join(items), vals, "list"))
@@ -61,7 +65,13 @@ WRONG = [("int", "[0.5]"), ("int", "[1, 2.5]"), ("int", '["a"]'), ("int", "1, 0.
          ("int", "[0, -0.0000001]"), ("int", "[250000+3/4]"), ("bool", "[0.5]"), ("bool", "[1.0000001]"), ("bool", "[True, 1e-9]"), ("float", "[1+1e-12j]"), ("float", "[0.5, 2-1e-9j]"), ("int", "[4+1e-12j]")]
 
 
+# bodies for loop types that are not numbers (the variable is an argument, a keyword value or a list element)
+BODIES_NN = [["G(%s) | 0" % V], ["G(k=[%s, 1]) | 0" % V], ["G | 0"], ["G(1, %s, k=%s) | 7" % (V, V), "H(l=[%s]) | 1" % V], ["G(%s) | 0" % V, "H(%s, %s) | [1, 2]" % (V, V)]]
+
+
 def usable(t, body):
+    if t in ("bool", "str"):
+        return body in BODIES_NN
     s = " ".join(body)
     numeric_use = any(x in s for x in ("%s+" % V, "2*%s" % V, "%s*" % V, "-%s" % V, "(%s)" % V, "**%s" % V, "%s**" % V, "(%s+" % V))
     mode_use = ("A[%s]" % V in s) or ("| %s" % V in s) or ("[%s," % V in s) or ("(%s," % V in s) or ("A[%s]" % V in s) or (", %s+" % V in s)
@@ -144,7 +154,7 @@ def build(ctx):
             # an earlier loop, then a declaration / re-declaration, then the loop, then a statement that uses the variable
             ("for int j in [4]\n    Y(j) | 0\nfloat w = 2.5\n", "R(w) | 1\n", False),
             ("float w = 1.0\nfor int j in 0:2\n    Y(j, w) | j\nfloat w = 5.0\n", "R(w, n) | 1\n", True)]
-    for (t, h, vals, kind), body in itertools.product(hs, bodies):
+    for (t, h, vals, kind), body in itertools.product(hs, bodies + [b for b in BODIES_NN if b not in bodies]):
         if not usable(t, body):
             continue
         if any("A[%s]" % V in s for s in body) and any(not (0 <= v < 7) for v in vals):
